@@ -1,5 +1,6 @@
 //! Native bounded checks of the I/O-facing code: Frame::read / Frame::write on adversarial streams (C15), the serial
 //! bus exchange (C16, C18), the ODK bridge and the full serial path against the direct path (C17).
+use crate::refspec::{lrc, payload, ref_enc, FrameV};
 use crate::{hex, Cex, Rng};
 use flipdot::Sign;
 use flipdot_core::*;
@@ -74,7 +75,67 @@ fn random_frame(rng: &mut Rng) -> Frame<'static> {
     Frame::new(Address(rng.next() as u16), MsgType(rng.next() as u8), Data::try_new((0..n).map(|_| rng.next() as u8).collect::<Vec<u8>>()).unwrap())
 }
 
+/// Frames with little entropy (zeros, colons' code 0x3A, CR/LF codes, checksum 0): the ones whose encoding contains
+/// stretches that look like a frame of their own, so that damage with a structural character could be mistaken for a
+/// shorter valid frame.
+fn low_entropy_frame(rng: &mut Rng) -> FrameV {
+    let n = [0usize, 1, 2, 5, 6, 8, 16][rng.below(7) as usize];
+    let pick = |rng: &mut Rng| [0u8, 0, 0, 0, 1, 0xFF, 0x3A, 0x0A, 0x0D, 0x7F][rng.below(10) as usize];
+    let mut data: Vec<u8> = (0..n).map(|_| pick(rng)).collect();
+    let addr = [0u16, 0, 1, 0x7F, 0x3A3A, 0x0A0D, 0x0100][rng.below(7) as usize];
+    let typ = [0u8, 0, 1, 2, 4, 0x3A][rng.below(6) as usize];
+    let mut f = FrameV { addr, typ, data: data.clone() };
+    if n > 0 && rng.below(2) == 0 {
+        // make the checksum 0 by adjusting the first data byte
+        let c = lrc(&payload(&f));
+        data[0] = data[0].wrapping_add(c);
+        f.data = data;
+    }
+    f
+}
+
+/// C15 "the result equals decoding that line" (and C02 through the stream path) for DAMAGED lines: every
+/// single-character substitution with a structural or neighbouring character, deletion, duplication, adjacent swap and
+/// truncation of the encoding of a low-entropy frame, read through Frame::read from a fragmenting reader, must be
+/// classified exactly like the reference decoder classifies the first line, and exactly that line must be consumed.
+fn search_read_damaged(rng: &mut Rng, rounds: usize) -> Option<Cex> {
+    for _ in 0..rounds {
+        let f = low_entropy_frame(rng);
+        let w = ref_enc(&f);
+        let positions: Vec<usize> = if w.len() <= 48 { (0..w.len()).collect() } else { (0..16).chain(w.len() - 16..w.len()).collect() };
+        let mut variants: Vec<Vec<u8>> = vec![w.clone()];
+        for &i in &positions {
+            for c2 in [b':', b'\r', b'0', b'F', b'a', w[i] ^ 1, w[i] ^ 0x20, 0u8] {
+                if c2 != w[i] { let mut m = w.clone(); m[i] = c2; variants.push(m); }
+            }
+            let mut d = w.clone(); d.remove(i); variants.push(d);
+            let mut u = w.clone(); u.insert(i, w[i]); variants.push(u);
+            if i + 1 < w.len() && w[i] != w[i + 1] { let mut x = w.clone(); x.swap(i, i + 1); variants.push(x); }
+            variants.push(w[..i].to_vec());
+        }
+        for v in variants {
+            if v.contains(&b'\n') { continue; }
+            let mut stream = v.clone();
+            stream.extend_from_slice(b"\r\n");
+            let line_len = stream.len();
+            stream.extend_from_slice(b":00000000");
+            let mut r = AdvReader { data: stream.clone(), pos: 0, calls: 0, interrupt_calls: vec![], hard_error_call: 0, max_chunk: 1 + rng.below(5) as usize, seed: rng.next() };
+            let got = crate::classify_result(catch_unwind(AssertUnwindSafe(|| Frame::read(&mut r))));
+            let want = crate::classify_ref(&stream[..line_len]);
+            let input = format!("damaged line {:?} (from frame {:04x}:{:02x}:{}) read through Frame::read", String::from_utf8_lossy(&stream[..line_len]), f.addr, f.typ, hex(&f.data));
+            if got != want {
+                return Some(Cex { domain: "stream", input, expected: format!("{} (= decoding of that line)", want), actual: got });
+            }
+            if r.pos != line_len {
+                return Some(Cex { domain: "stream", input, expected: format!("{} bytes consumed", line_len), actual: format!("{} consumed", r.pos) });
+            }
+        }
+    }
+    None
+}
+
 pub fn search_stream(rng: &mut Rng, rounds: usize) -> Option<Cex> {
+    if let Some(c) = search_read_damaged(rng, rounds / 4) { return Some(c); }
     for round in 0..rounds {
         // ---- read side: k frames back to back + trailing bytes
         let k = 1 + rng.below(3) as usize;
